@@ -1583,3 +1583,42 @@ func ruleC18commit(c *Ctx, r *Report) {
 		}
 	}
 }
+
+func init() { register("C18", "", rulePC2c, ruleC18d); register("C22", "", ruleC18d) }
+
+// ruleC18d (MP-C18d): a keep-session connection outlives the statement that created it, so the node it is taken from
+// must not depend on that statement's read/write-split decision: in getBackendKsConn the raw source is dominated by a
+// SetFromSlave call of this function (the session-level decision), on every path.
+func ruleC18d(c *Ctx, r *Report) {
+	const rule = "MP-C18d"
+	r.floor(rule, 1)
+	pf := c.pcFacts()
+	fn := c.seMethod("getBackendKsConn")
+	setFS := c.Method("util", "RequestContext", "SetFromSlave")
+	if pf == nil || fn == nil || setFS == nil {
+		r.undecided(rule, "(*proxy/server.SessionExecutor).getBackendKsConn", "anchor", "-", "anchors not found")
+		return
+	}
+	name := c.FuncName(fn)
+	n := 0
+	allInstrs(fn, func(in ssa.Instruction) {
+		call, ok := in.(*ssa.Call)
+		if !ok || pf.sourceKind(&call.Call) != "raw" {
+			return
+		}
+		n++
+		min, _ := countOnPaths(fn, in, func(x ssa.Instruction) bool {
+			cc := callCommon(x)
+			return cc != nil && callsFunc(cc, setFS)
+		})
+		cons := "source@" + ordinalByLabel(fn, in, calleeLabel(&call.Call)) + ":session-level-node-choice"
+		if min >= 1 {
+			r.ok(rule, name, cons, c.Pos(in.Pos()), "the replica flag is re-decided for the session on every path before the pinned connection is taken")
+		} else {
+			r.viol(rule, name, cons, c.Pos(in.Pos()), "the pinned connection can be taken with the replica flag left over from the current statement: a plain SELECT pins a replica connection and the session's later transaction runs on the replica")
+		}
+	})
+	if n == 0 {
+		r.undecided(rule, name, "source", c.Pos(fn.Pos()), "no raw source")
+	}
+}
